@@ -169,9 +169,9 @@ def r3_narrowing(ctx, F):
 
 # R4 reviewed wide float<->int casts: (function, cast) -> reason
 WIDE_CAST_OK = {
-    ("float::write_scientific", "IntToFloat usize -> f64"): "formatting: 10^(number of digits), a small count",
-    ("float::write_scientific", "FloatToInt f64 -> u64"): "formatting: the mantissa scaled to at most 17 decimal digits "
-                                                          "(< 2^63), printed as digits",
+    "float::write_scientific:IntToFloat usize -> f64": "formatting: WRITE_PRECISION (a small constant) as the exponent of 10",
+    "float::write_scientific:FloatToInt f64 -> u64": "formatting: the fractional part scaled by 10^WRITE_PRECISION "
+                                                     "(below 10^7), printed as digits",
 }
 NARROW_INTS = ("i8", "i16", "i32", "u8", "u16", "u32")
 
@@ -193,9 +193,11 @@ def r4_float_int_casts(ctx, F):
             src, dst = [x.strip() for x in st.ops[1].split(" -> ")]
             narrow = (src if m.group(1) == "IntToFloat" else dst) in NARROW_INTS
             who = short_fn(top_fn(F, f).qpath)
+            from kern import reviewed
             key = (who, "%s %s -> %s" % (m.group(1), src, dst))
-            ctx.check(narrow or key in WIDE_CAST_OK, "C10.R4", "float-int-cast:%s:%s" % key,
-                      "exact by width" if narrow else "reviewed: " + WIDE_CAST_OK.get(key, ""),
+            why = None if narrow else reviewed(F, WIDE_CAST_OK, key[0], key[1])
+            ctx.check(narrow or why is not None, "C10.R4", "float-int-cast:%s:%s" % key,
+                      "exact by width" if narrow else "reviewed: " + (why or ""),
                       "`%s` casts %s to %s: the cast saturates / rounds beyond 2^53, so a conversion or comparison built "
                       "on it is not exact for large operands (e.g. int(float(1 << 63)) off by one)" % (who, src, dst),
                       fn=f, line=st.line)
